@@ -232,13 +232,13 @@ macro_rules! ni_batch {
         });
     };
 }
-//@ harness name=aes128_ni_batch10_enc prop=C04,C20 tier=quick bits=7072 stub=1 est=300 variants=aes:ni desc="Aes128 (AES-NI arm, arbitrary round keys) encrypt_blocks in place on 10 blocks (one full 9-wide batch + a tail of 1) at a symbolic buffer offset 0..15: output block i (i symbolic) equals the single-block call on block i; guard bytes unchanged; all states and contents"
+//@ harness name=aes128_ni_batch10_enc prop=C04,C20 tier=thorough bits=7072 stub=1 est=300 variants=aes:ni desc="Aes128 (AES-NI arm, arbitrary round keys) encrypt_blocks in place on 10 blocks (one full 9-wide batch + a tail of 1) at a symbolic buffer offset 0..15: output block i (i symbolic) equals the single-block call on block i; guard bytes unchanged; all states and contents"
 ni_batch!(aes128_ni_batch10_enc, crate::Aes128, 10, false, false);
-//@ harness name=aes128_ni_batch10_enc_b2b prop=C04,C20 tier=quick bits=7072 stub=1 est=300 variants=aes:ni desc="Aes128 (AES-NI arm) encrypt_blocks_b2b on 10 blocks: output block i (i symbolic) equals the single-block call; separate input unchanged"
+//@ harness name=aes128_ni_batch10_enc_b2b prop=C04,C20 tier=thorough bits=7072 stub=1 variants=aes:ni est=225 need=6 desc="Aes128 (AES-NI arm) encrypt_blocks_b2b on 10 blocks: output block i (i symbolic) equals the single-block call; separate input unchanged"
 ni_batch!(aes128_ni_batch10_enc_b2b, crate::Aes128, 10, false, true);
-//@ harness name=aes128_ni_batch10_dec prop=C04,C20 tier=quick bits=7072 stub=1 est=300 variants=aes:ni desc="Aes128 (AES-NI arm) decrypt_blocks in place on 10 blocks (9-wide batch + tail), symbolic offset: output block i equals the single-block call; guards unchanged"
+//@ harness name=aes128_ni_batch10_dec prop=C04,C20 tier=thorough bits=7072 stub=1 est=300 variants=aes:ni desc="Aes128 (AES-NI arm) decrypt_blocks in place on 10 blocks (9-wide batch + tail), symbolic offset: output block i equals the single-block call; guards unchanged"
 ni_batch!(aes128_ni_batch10_dec, crate::Aes128, 10, true, false);
-//@ harness name=aes128_ni_batch10_dec_b2b prop=C04,C20 tier=quick bits=7072 stub=1 est=300 variants=aes:ni desc="Aes128 (AES-NI arm) decrypt_blocks_b2b on 10 blocks: output block i equals the single-block call; separate input unchanged"
+//@ harness name=aes128_ni_batch10_dec_b2b prop=C04,C20 tier=thorough bits=7072 stub=1 variants=aes:ni est=225 need=6 desc="Aes128 (AES-NI arm) decrypt_blocks_b2b on 10 blocks: output block i equals the single-block call; separate input unchanged"
 ni_batch!(aes128_ni_batch10_dec_b2b, crate::Aes128, 10, true, true);
 //@ harness name=aes128_ni_batch9_enc prop=C04 tier=thorough bits=6944 stub=1 est=300 variants=aes:ni desc="as batch10, n = 9 (exactly the parallel width), in place"
 ni_batch!(aes128_ni_batch9_enc, crate::Aes128, 9, false, false);
@@ -250,7 +250,7 @@ ni_batch!(aes128_ni_batch19_dec_b2b, crate::Aes128, 19, true, true);
 ni_batch!(aes256_ni_batch10_dec_b2b, crate::Aes256, 10, true, true);
 
 // ------------------------------------------------------------------ C15: history independence incl. first-use detection
-//@ harness name=aes128_history prop=C15 tier=quick bits=896 stub=1 est=900 variants=aes:ni desc="sequential history on the autodetect types (CPUID reports AES-NI): a=new(k1) [first use triggers detection and fills the process-wide cache]; b=new(k2); a.enc(x); b.dec(y); clone(a).dec(z); then a fresh c=new(k1): a.enc(w) == c.enc(w), and b.dec(y) again gives the same result; all keys/blocks; threads = 1"
+//@ harness name=aes128_history prop=C15 tier=thorough bits=896 stub=1 variants=aes:ni est=210 need=4 desc="sequential history on the autodetect types (CPUID reports AES-NI): a=new(k1) [first use triggers detection and fills the process-wide cache]; b=new(k2); a.enc(x); b.dec(y); clone(a).dec(z); then a fresh c=new(k1): a.enc(w) == c.enc(w), and b.dec(y) again gives the same result; all keys/blocks; threads = 1"
 ni_harness!(aes128_history, 16 + 16 + 16 * 5 + 1, 70, |inp| {
     ni_model::set_cpu(true);
     let k1: [u8; 16] = take(inp, 0);
